@@ -14,7 +14,8 @@ CLAIMED = {
     # id: (technique, level text, note, design_ref)
     "C01": ("TLC trace validation of emitted leaves against the live-declared specs (SpecsAlgebra membership in TLA+)",
             TV, "declared specs are exported from the live environment object; float bounds compared through a monotone integer image", "6/C01"),
-    "C03": ("TLC trace validation + TLC model checking of the FIRST/MID/LAST protocol", TV,
+    "C03": ("TLC trace validation + TLC model checking of the FIRST/MID/LAST protocol; the TimeStep constructors of jumanji.types "
+            "validated against TimeStepCtor.tla and model-checked as an episode protocol (MC_TimeStepCtor)", TV,
             "episodes are continued past LAST; keys/policies sampled", "6/C03"),
     "C04": ("TLC trace validation: mask = Legal of the TLA+ rules, with per-state probes of every action; TLC model checking of MaskSound", TV,
             "action spaces larger than the probe cap are sampled per state", "6/C04"),
@@ -26,7 +27,8 @@ CLAIMED = {
             "random/illegal/masked policies; small and non-square grids", "6/C07"),
     "C08": ("TLC trace validation with a return accumulator variable; dense and sparse reward functions run in lock-step", TV,
             "fixed-point tolerance for float returns", "6/C08"),
-    "C09": ("TLC trace validation: recorded (pre, action, post, reward, done) must satisfy StepRel of the TLA+ reference model; MC totality/determinism", TV,
+    "C09": ("TLC trace validation: recorded (pre, action, post, reward, done) must satisfy StepRel of the TLA+ reference model, on played episodes and on "
+            "TLC-dumped model states injected into the real code (all actions stepped); MC totality/determinism", TV,
             "nondeterministic outcomes (spawns, fruit) are existentially quantified in StepRel", "6/C09"),
     "C10": ("TLC trace validation of reset events against WellFormedInstance of each generator; MC of generator invariants", TV,
             "keys sampled; non-constancy judged over the reset events of each trace", "6/C10"),
@@ -40,7 +42,8 @@ LIB = ("TLA+ model of the library component (spec/lib/*.tla) model-checked by TL
        "code by trace validation: a driver performs calls on the real jumanji objects and logs each call with an oracle table "
        "computed from the native API; TLC judges every logged call against the law in the trace specification")
 CLAIMED.update({
-    "C02": ("TLC trace validation with a memo-table monitor (PureFn.tla) over calls in eager/jit/vmap/scan/fresh-instance modes and histories", LIB,
+    "C02": ("TLC trace validation with a memo-table monitor (PureFn.tla) over calls in eager/jit/vmap/scan/fresh-instance modes and histories, "
+            "including plain-Python replays of the most eventful transitions reached by directed policies", LIB,
             "results for identical arguments are classed with exact equality on ints/bools and 2e-5 relative tolerance on floats", "6/C02"),
     "C13": ("TLC trace validation of AutoResetWrapper calls (jit, vmap, scan, eager) on all environments against Wrappers.tla; MC_AutoReset freshness over split-terms", LIB,
             "oracle table from the unwrapped environment; keys/actions sampled", "6/C13"),
